@@ -54,6 +54,8 @@ class Sched:
         self.exhausted = False
         self._local = _real.local()
         self.fair_limit = 150
+        self.on_step = None           # dispatcher hook (e.g. to open a gate at a given step)
+        self.priority = None          # a thread id the dispatcher prefers while it is runnable
         self.streak = 0
         self.rr = 0
 
@@ -153,11 +155,21 @@ class Sched:
                     grace = self.steps + 400          # daemons (the clock thread) get a chance to end by themselves
                 elif self.steps > grace:
                     break
+            if self.on_step is not None:
+                self.on_step(self)
             runnable = [t for t in live if t.status == 'runnable']
             if not runnable:
                 timers = [t for t in live if t.status == 'blocked' and t.wake_time is not None]
                 if not timers:
                     self.deadlock = any(not t.daemon for t in live)
+                    if self.deadlock:
+                        import traceback
+                        frames = sys._current_frames()
+                        self.stuck = {}
+                        for t in live:
+                            fr = frames.get(t.real.ident)
+                            if fr is not None:
+                                self.stuck[t.tid] = [ln for ln in traceback.format_stack(fr) if 'detsched' not in ln][-4:]
                     break
                 when = min(t.wake_time for t in timers)
                 self.vtime = max(self.vtime, when)
@@ -175,6 +187,8 @@ class Sched:
             chosen = self.policy.choose(ids, self.prev, self.steps)
             if chosen not in ids:
                 chosen = ids[0]
+            if self.priority is not None and self.priority in ids:
+                chosen = self.priority
             # weak fairness: a thread that keeps running while others could run is pre-empted after
             # `fair_limit` consecutive steps (a spinning thread must not starve the thread it waits for)
             if chosen == self.prev:
